@@ -22,7 +22,8 @@ RULE = (
     "neighbours, 0x1a, high bytes, valid/invalid UTF-8, CR/LF text, random; then container histories that keep the node "
     "(patch boundaries, copy, move, copy of the parent group, deletion of the original, reopen, merge of the IH5 "
     "record); after EVERY stage every surviving copy is read back: bytes == source, contentSize == length, sha256 == "
-    "hashlib digest, filename kept. For b'\\x7f' on IH5: must raise and leave the raw tree unchanged; on h5py it is an "
+    "hashlib digest, filename kept; from the h5py driver the file is also copied as a dataset into IH5 records (container and raw "
+    "interface) and read back after commit and reopen. For b'\\x7f' on IH5 (pack_file and cross-container copy): must raise and leave the raw tree unchanged; on h5py it is an "
     "ordinary value. non-trivial = content with NUL/high/marker bytes or boundary length; distinct = (driver, bytes hash, history)."
 )
 ANCHORS = ["src/metador_core/packer/utils.py", "src/metador_core/harvester/common.py", "src/metador_core/ih5/overlay.py"]
@@ -130,6 +131,10 @@ def one(acc, d, driver, data, hist, idx):
         r = verify("packed")
         if r:
             return r
+        if driver == "h5":
+            r = cross_copy(acc, d, sub, data)
+            if r:
+                return r
         try:
             pack_file(sub.mc["files"], src, target="f")
             return "duplicate-target", "pack_file onto an existing target accepted"
@@ -186,6 +191,58 @@ def one(acc, d, driver, data, hist, idx):
         gc.collect()
 
 
+def cross_copy(acc, d, sub, data):
+    """The embedded file (held by an h5py-backed container, where every byte string is storable) is copied as a dataset
+    into IH5-backed containers, through the container interface and through the raw record: bytes must survive commit and
+    reopen; the deletion-marker content must be refused by both and leave the target record untouched."""
+    from metador_core.container import MetadorContainer
+    from metador_core.ih5.container import IH5Record
+    (d / "x").mkdir()
+    marker = data == b"\x7f"
+    for via in ("container", "raw"):
+        rec = IH5Record(d / "x" / f"t{via}", "w")
+        try:
+            tgt = MetadorContainer(rec)
+            tgt["keep/k"] = 1
+            rec.commit_patch()
+            rec.create_patch()
+            before = {k: str(v) for k, v in tocoracle.raw_nodes(rec).items()}
+            acc.count("cross_container_copies")
+            try:
+                if via == "container":
+                    tgt.copy(sub.mc["files/f"], "in", without_meta=True)
+                else:
+                    rec.copy(sub.raw["files/f"], "in")
+                err = None
+            except Exception as e:
+                err = e
+            if marker:
+                acc.count("marker_cases")
+                after = {k: str(v) for k, v in tocoracle.raw_nodes(rec).items()}
+                if err is None:
+                    return "marker-stored", f"copying the embedded file with the deletion-marker content from an HDF5 container into an IH5 record ({via}) returned silently; 'in' in record: {'in' in rec}"
+                if after != before or "in" in rec:
+                    return "marker-effect", f"refused cross-container copy ({via}) left traces: {sorted(set(after) ^ set(before))[:4]}"
+                continue
+            if err is not None:
+                return "cross-copy-failed", f"copy of the embedded file into an IH5 record ({via}) raised {type(err).__name__}: {err}"
+            for stage in ("written", "committed", "reopened"):
+                if stage == "committed":
+                    rec.commit_patch()
+                elif stage == "reopened":
+                    rec.close()
+                    rec = IH5Record(d / "x" / f"t{via}", "r")
+                if "in" not in rec:
+                    return "lost", f"cross-container copy ({via}) vanished at stage {stage}"
+                got = read_bytes(rec["in"])
+                acc.count("readbacks")
+                if got != data:
+                    return "bytes", f"cross-container copy ({via}) at stage {stage}: read back {len(got)} bytes {got[:12]!r}, embedded {len(data)} bytes {data[:12]!r}"
+        finally:
+            rec.close()
+    return None
+
+
 def units(tier, seed):
     rng = random.Random(seed)
     cor = corpus(rng, tier)
@@ -222,7 +279,7 @@ def run_unit(u, acc):
 
 def inconclusive(cov):
     c = cov["counters"]
-    return [f"monitor counter {k} is zero" for k in ("readbacks", "marker_cases", "merged_records_read", "histories", "symlinked_sources") if not c.get(k)]
+    return [f"monitor counter {k} is zero" for k in ("readbacks", "marker_cases", "cross_container_copies", "merged_records_read", "histories", "symlinked_sources") if not c.get(k)]
 
 
 def replay(case, acc):
